@@ -151,7 +151,8 @@ pub fn build(spec: &InputSpec) -> Input {
         }
         "starholes" => {
             // star-shaped shells with a star-shaped hole strictly inside; float or gridded
-            let grid = if rng.chance(1, 2) { Some(0.5) } else { None };
+            // snapping to a grid is only star-shape preserving for few vertices
+            let grid = if n <= 30 && rng.chance(1, 2) { Some(0.5) } else { None };
             let mut mk = |rng: &mut Rng, cx: f64, cy: f64| {
                 let m = 5 + rng.below(n.max(1) + 3);
                 let shell = star_ring(rng, cx, cy, 6.0, 10.0, m, grid);
@@ -303,7 +304,30 @@ pub fn build(spec: &InputSpec) -> Input {
 /// Picks family and size for a scenario.  `large` = shipped-configuration family sizes (the
 /// overlay engine's own thresholds: > 8000 segments for the fragment path, > 32768 elements for
 /// the parallel sort).
+/// "Threshold sweep": sizes just above the powers of two at which code typically switches to a
+/// parallel, indexed or chunked path (64, 128, 256, 512, 1024, 2048 members / vertices / points).
+pub fn sweep_size(rng: &mut Rng, family: &str) -> Option<usize> {
+    let pick = |rng: &mut Rng, xs: &[usize]| *rng.pick(xs);
+    Some(match family {
+        "rects" => pick(rng, &[40, 70, 130, 260]),
+        "lattice" => pick(rng, &[8, 9, 12, 16, 23]), // 64, 81, 144, 256, 529 squares
+        "circles" => pick(rng, &[70, 130, 260, 520, 1030, 2100]),
+        "combs" => pick(rng, &[20, 40, 70, 130]),
+        "starholes" => pick(rng, &[70, 130, 260, 520]),
+        "blobs" => pick(rng, &[40, 70, 130, 260]),
+        "tiles" => pick(rng, &[8, 9, 12, 16]),
+        "cloud" => pick(rng, &[70, 130, 260, 520, 1030, 2100]),
+        "segs" => pick(rng, &[20, 40, 70]),
+        _ => return None,
+    })
+}
+
 pub fn gen_spec(rng: &mut Rng, family: &str, large: u8) -> InputSpec {
+    if large == 0 && rng.chance(1, 8) {
+        if let Some(size) = sweep_size(rng, family) {
+            return InputSpec { family: family.to_string(), size, seed: rng.next_u64() };
+        }
+    }
     let size = match (family, large) {
         ("lattice", 0) => 1 + rng.below(5),
         ("lattice", 1) => 33 + rng.below(16),  // 2*4*k^2 = 8.7k .. 18k segments
